@@ -223,8 +223,12 @@ def execute(case, trace=False):
             M = models[i]
             R = M.n - 1
             max_rounds = max(max_rounds, R)
-            span = 2 * R + 6
-            r = -(R + 3) + (op["q"] % span)
+            # 3 in 4 requests are in range (non-negative or negative form); 1 in 4 is an out-of-range fault
+            q = op["q"]
+            if q % 4 != 3:
+                r = -M.n + ((q // 4) % (2 * M.n))
+            else:
+                r = [-M.n - 1, -M.n - 2, M.n, M.n + 1][(q // 4) % 4]
             name = op["op"]
             use_default = op.get("default") and name not in ("len", "str")
             ri = M.idx(-1 if use_default else r)
